@@ -1,0 +1,166 @@
+//go:build verif
+
+package ir
+
+import (
+	"sync"
+	"sync/atomic"
+)
+
+// Protocol trace for the verification harness (property C18).
+//
+// Between VerifTraceStart and VerifTraceStop every protocol action of the builders
+// (creation and lookup of shared functions, buildFunction, markDone, the steps of
+// task.wait) appends one event to a global log. Actions that read or write state shared
+// without a mutex (task.transitive, closing task.done) run with the trace mutex held from
+// verifTraceLock until the event has been recorded, so the order of the log is the order
+// in which the actions took effect. Builders, tasks and functions are numbered in order of
+// first appearance. Without VerifTraceStart the hooks do nothing.
+
+// VerifEvent is one protocol action.
+type VerifEvent struct {
+	Kind    string      // start enqueue hit build fndone markdone return waitskip waitcheck waitrecv waitend
+	Builder int         // the acting builder (-1 for the steps of task.wait, which know only the task)
+	Task    int         // the acting builder's task (b.buildshared / x in wait), -1 if nil
+	Fn      *Function   // the function concerned (enqueue, hit, build, fndone)
+	FnTask  int         // Fn.buildshared, -1 if nil
+	Other   int         // wait: the task u looked at
+	Flag    bool        // build: fn.build != nil; hit: the target was transitively done
+	N1      int         // hit: len(edges) of the builder's task after the action; Other = the target's task if it is among them
+	New     []int       // waitrecv: tasks appended to the work list, in order
+	Pkg     *Package    // start: the package (nil for Program.MethodValue)
+	Fns     []*Function // start: the initial queue
+}
+
+var (
+	verifTraceOn  atomic.Bool
+	verifTraceMu  *sync.Mutex
+	verifTraceLog []VerifEvent
+	verifBuilders map[*builder]int
+	verifTasks    map[*task]int
+)
+
+// VerifTraceStart begins recording.
+func VerifTraceStart() {
+	verifTraceMu = new(sync.Mutex)
+	verifTraceLog = nil
+	verifBuilders = map[*builder]int{}
+	verifTasks = map[*task]int{}
+	verifTraceOn.Store(true)
+}
+
+// VerifTraceStop ends recording and returns the events.
+func VerifTraceStop() []VerifEvent {
+	verifTraceOn.Store(false)
+	return verifTraceLog
+}
+
+func verifBuilderID(b *builder) int {
+	if id, ok := verifBuilders[b]; ok {
+		return id
+	}
+	verifBuilders[b] = len(verifBuilders)
+	return len(verifBuilders) - 1
+}
+
+func verifTaskID(t *task) int {
+	if t == nil {
+		return -1
+	}
+	if id, ok := verifTasks[t]; ok {
+		return id
+	}
+	verifTasks[t] = len(verifTasks)
+	return len(verifTasks) - 1
+}
+
+// verifTraceLock starts an action that must be recorded atomically with its effect; the
+// matching verifTrace* call records the event and releases the mutex.
+func verifTraceLock() {
+	if verifTraceOn.Load() {
+		verifTraceMu.Lock()
+	}
+}
+
+// verifRecord appends e; locked says whether verifTraceLock was called for this action.
+func verifRecord(locked bool, fill func(e *VerifEvent)) {
+	if !verifTraceOn.Load() {
+		return
+	}
+	if !locked {
+		verifTraceMu.Lock()
+	}
+	var e VerifEvent
+	e.Builder, e.Task, e.FnTask, e.Other = -1, -1, -1, -1
+	fill(&e)
+	verifTraceLog = append(verifTraceLog, e)
+	verifTraceMu.Unlock()
+}
+
+func verifTraceStart(b *builder, p *Package) {
+	verifRecord(false, func(e *VerifEvent) {
+		e.Kind, e.Builder, e.Pkg = "start", verifBuilderID(b), p
+		e.Fns = append([]*Function(nil), b.fns...)
+	})
+}
+
+func verifTraceEnqueue(b *builder, fn *Function) {
+	verifRecord(false, func(e *VerifEvent) {
+		e.Kind, e.Builder, e.Task, e.Fn, e.FnTask = "enqueue", verifBuilderID(b), verifTaskID(b.buildshared), fn, verifTaskID(fn.buildshared)
+	})
+}
+
+func verifTraceHit(b *builder, fn *Function) {
+	verifRecord(true, func(e *VerifEvent) {
+		e.Kind, e.Builder, e.Task, e.Fn, e.FnTask = "hit", verifBuilderID(b), verifTaskID(b.buildshared), fn, verifTaskID(fn.buildshared)
+		e.Flag = fn.buildshared != nil && fn.buildshared.isTransitivelyDone()
+		if b.buildshared != nil {
+			e.N1 = len(b.buildshared.edges)
+			if _, ok := b.buildshared.edges[fn.buildshared]; ok && fn.buildshared != nil {
+				e.Other = verifTaskID(fn.buildshared)
+			}
+		}
+	})
+}
+
+func verifTraceBuild(b *builder, fn *Function) {
+	verifRecord(false, func(e *VerifEvent) {
+		e.Kind, e.Builder, e.Task, e.Fn, e.FnTask = "build", verifBuilderID(b), verifTaskID(b.buildshared), fn, verifTaskID(fn.buildshared)
+		e.Flag = fn.build != nil
+	})
+}
+
+func verifTraceFnDone(b *builder, fn *Function) {
+	verifRecord(false, func(e *VerifEvent) {
+		e.Kind, e.Builder, e.Task, e.Fn, e.FnTask = "fndone", verifBuilderID(b), verifTaskID(b.buildshared), fn, verifTaskID(fn.buildshared)
+	})
+}
+
+func verifTraceMarkDone(b *builder) {
+	verifRecord(true, func(e *VerifEvent) {
+		e.Kind, e.Builder, e.Task = "markdone", verifBuilderID(b), verifTaskID(b.buildshared)
+	})
+}
+
+func verifTraceReturn(b *builder) {
+	verifRecord(false, func(e *VerifEvent) {
+		e.Kind, e.Builder, e.Task = "return", verifBuilderID(b), verifTaskID(b.buildshared)
+	})
+}
+
+const (
+	verifWaitSkip = iota
+	verifWaitCheck
+	verifWaitRecv
+	verifWaitEnd
+)
+
+func verifTraceWait(kind int, x, u *task, added []*task) {
+	verifRecord(true, func(e *VerifEvent) {
+		e.Kind = [...]string{"waitskip", "waitcheck", "waitrecv", "waitend"}[kind]
+		e.Task, e.Other = verifTaskID(x), verifTaskID(u)
+		for _, v := range added {
+			e.New = append(e.New, verifTaskID(v))
+		}
+	})
+}
